@@ -72,6 +72,7 @@ func main() {
 	access := flag.String("access", "", "accessor file to add (optional)")
 	plain := flag.Bool("plain", false, "copy without rewriting")
 	withTests := flag.Bool("tests", false, "also rewrite *_test.go (self-test: repository suite on the shim)")
+	yields := flag.Bool("yields", false, "insert a scheduler yield point before every statement of the library (statement-level interleaving for shared-reader scenarios)")
 	flag.Parse()
 	if *out == "" {
 		die(2, "-out required")
@@ -201,6 +202,30 @@ func main() {
 				edits = append(edits, edit{lb, lb, ins})
 				return true
 			})
+			if *yields && !isTest {
+				ins := func(list []ast.Stmt) {
+					for _, st := range list {
+						switch st.(type) {
+						case *ast.CaseClause, *ast.CommClause:
+							continue // the "statements" of a switch/select body
+						}
+						o := off(st.Pos())
+						edits = append(edits, edit{o, o, "simrt__.Y(); "})
+						needSimrt = true
+					}
+				}
+				ast.Inspect(f, func(nd ast.Node) bool {
+					switch x := nd.(type) {
+					case *ast.BlockStmt:
+						ins(x.List)
+					case *ast.CaseClause:
+						ins(x.Body)
+					case *ast.CommClause:
+						ins(x.Body)
+					}
+					return true
+				})
+			}
 			if needSimrt {
 				e := off(f.Name.End())
 				edits = append(edits, edit{e, e, "; import simrt__ \"verifsim/simrt\""})
